@@ -16,6 +16,16 @@ type Subscription { sub(k: Int): Ev, other: Int, nores: Int, echo: String, tick:
 """
 
 
+# one ObjectType serving as query, mutation AND subscription root (seed C17-e): the operation kind, not
+# the identity of the root type, decides whether `subscribe` accepts a request
+SDL_SHARED = """
+schema { query: Root mutation: Root subscription: Root }
+type Root { _: Int, sub(k: Int): Ev, other: Int, nores: Int, echo: String, tick: Int!, m: Int }
+type Ev { idx: Int!, n: Int!, v: Int, s: String!, o: Inner, on: Inner!, l: [Int!], lo: [Inner!], f: Float }
+type Inner { a: Int, b: Int!, deep: Inner }
+"""
+
+
 def _lookup(root, info):
     name = info.field_definition.name
     if isinstance(root, dict):
@@ -86,8 +96,21 @@ async def async_resolver(root, ctx, info, **args):
 _CACHE = {}
 
 
-def get_schema(flavour):
-    """flavour: 'sync' | 'async' (field resolvers registered on some fields are coroutines)"""
+def get_schema(flavour, shared=False):
+    """flavour: 'sync' | 'async' (field resolvers registered on some fields are coroutines);
+    shared: the schema whose three roots are one ObjectType"""
+    if shared:
+        if ("shared", flavour) not in _CACHE:
+            schema = build_schema(SDL_SHARED)
+            schema.default_resolver = sync_resolver
+            r = async_resolver if flavour == "async" else sync_resolver
+            for tn, fn in [("Ev", "v"), ("Ev", "o"), ("Inner", "b"), ("Ev", "n"), ("Ev", "lo")]:
+                schema.register_resolver(tn, fn, r)
+            schema.register_resolver("Root", "echo", echo_resolver_async if flavour == "async" else echo_resolver)
+            schema.register_resolver("Root", "tick", tick_resolver_async if flavour == "async" else tick_resolver)
+            schema.validate()
+            _CACHE[("shared", flavour)] = schema
+        return _CACHE[("shared", flavour)]
     if flavour not in _CACHE:
         schema = build_schema(SDL)
         schema.default_resolver = sync_resolver
@@ -232,4 +255,25 @@ REFUSALS = [
      (0, 1, 1, 1, 1, 1, 1)),
     ("bad-variables", "subscription S($k: Int!) { sub(k: $k) { n } }", "asyncio", None, {"k": "x"}, (1, 0, 1, 1, 1, 1, 1)),
     ("bad-variables-on-query", "query S($k: Int!) { sub(k: $k) { n } }", "asyncio", None, {}, (1, 0, 0, 1, 1, 1, 1)),
+]
+
+# the same on the schema whose roots are one type: (label, text, runtime, operation_name, variables, facts)
+SHARED_ROOT_REFUSALS = [
+    ("shared-root-query", "query { sub { n } }", "asyncio", None, {}, (1, 1, 0, 1, 1, 1, 1)),
+    ("shared-root-mutation", "mutation { sub { n } }", "asyncio", None, {}, (1, 1, 0, 1, 1, 1, 1)),
+    ("shared-root-named-query", "subscription S { sub { n } } query Q { sub { n } }", "asyncio", "Q", {}, (1, 1, 0, 1, 1, 1, 1)),
+    ("shared-root-bad-variables-on-query", "query S($k: Int!) { sub(k: $k) { n } }", "asyncio", None, {}, (1, 0, 0, 1, 1, 1, 1)),
+    ("shared-root-several-fields", "subscription { sub { n } other }", "asyncio", None, {}, (1, 1, 1, 1, 2, 1, 1)),
+]
+
+# collect_fields on the root selection set raises (null variable in @skip/@include): facts as above
+DIRECTIVE_ARGUMENT_REFUSALS = [
+    ("directive-arguments-null-variable", "subscription S($s: Boolean = true) { sub @skip(if: $s) { n } }", "asyncio",
+     None, {"s": None}, (1, 1, 1, 1, 0, 1, 1)),
+    ("directive-arguments-in-fragment", "subscription S($s: Boolean = true) { ...F }\nfragment F on Subscription { sub @include(if: $s) { n } }",
+     "asyncio", None, {"s": None}, (1, 1, 1, 1, 0, 1, 1)),
+    ("directive-arguments-on-query", "query S($s: Boolean = true) { sub @skip(if: $s) { n } }", "asyncio",
+     None, {"s": None}, (1, 1, 0, 1, 0, 1, 1)),
+    ("directive-arguments-blocking-runtime", "subscription S($s: Boolean = true) { sub @skip(if: $s) { n } }", "blocking",
+     None, {"s": None}, (1, 1, 1, 0, 0, 1, 1)),
 ]
